@@ -219,6 +219,7 @@ def par_held_runs(machines, facs, seed, per_machine):
             def hold(_d):
                 if held["n"] == 0:
                     held["n"] = 1
+                    held["cur"] = mach.current_state.name
                     inside.set()
                     release.wait()
 
@@ -234,7 +235,19 @@ def par_held_runs(machines, facs, seed, per_machine):
 
             th1 = simrt.Thread(target=worker, args=(1, t1), name="req1")
             th1.start()
-            inside.wait()
+            if not inside.wait(5.0):
+                # the transition does not leave the start state itself (e.g. the destination is one of its descendants): the first
+                # request ran through without stopping in a leave handler -- not the planned situation
+                th1.join()
+                rec["skip"] = True
+                return
+            if held.get("cur") != c:
+                # the start state is left only later, inside a nested transition requested by an enter handler (the current state is
+                # another one by then): not the planned situation
+                release.set()
+                th1.join()
+                rec["skip"] = True
+                return
             th2 = simrt.Thread(target=worker, args=(2, t2), name="req2")
             th2.start()
             th2.join()
